@@ -16,6 +16,7 @@ import (
 	quickbuilder "github.com/ipfs/go-unixfsnode/data/builder/quick"
 	dagpb "github.com/ipld/go-codec-dagpb"
 	"github.com/ipld/go-ipld-prime"
+	cidlink "github.com/ipld/go-ipld-prime/linking/cid"
 	"github.com/multiformats/go-multihash"
 
 	"verifharness/gen"
@@ -152,7 +153,7 @@ func checkBuild(c *mon.Case, b c16Build) {
 			installOrderHook(c, fs, fmt.Sprintf("%s with %s #%d failing", b.Name, p.kind, k))
 			p.set(fs, k)
 			// rotate the error kind: a plain error, and kinds a wrapper might take for success or end of input
-			fs.FailErr = []error{nil, &iofs.PathError{Op: "open", Path: "/blocks/x", Err: syscall.EEXIST}, io.ErrShortWrite, context.Canceled, iofs.ErrExist, store.ErrNotFound{}}[k%6]
+			fs.FailErr = []error{nil, &iofs.PathError{Op: "open", Path: "/blocks/x", Err: syscall.EEXIST}, io.ErrShortWrite, context.Canceled, iofs.ErrExist, store.ErrNotFound{}, &iofs.PathError{Op: "open", Path: "/blocks/x", Err: syscall.ENOENT}}[k%7]
 			var fl ipld.Link
 			var ferr error
 			if !c.Guard(fmt.Sprintf("%s with %s #%d failing", b.Name, p.kind, k), func() {
@@ -316,6 +317,57 @@ func TestC16(t *testing.T) {
 			b := mk(c)
 			checkBuild(c, b)
 			c.Sample(map[string]any{"build": b.Name, "kind": b.Kind})
+		})
+	}
+	// a block the codec itself refuses to write (an entry with a negative size): nothing fails in
+	// storage, yet the write of that block fails, and the build has to say so
+	for i := 0; i < r.Pick(12, 80); i++ {
+		i := i
+		r.Case(fmt.Sprintf("unencodable-entry/%d", i), map[string]any{"round": i}, func(c *mon.Case) {
+			rr := c.Rand()
+			st := store.New()
+			names := gen.Names(rr, gen.FamASCII, []int{1, 3, 20, 70}[i%4])
+			_, model, sizes := childEntries(st, names)
+			bad := names[rr.Intn(len(names))]
+			var entries []dagpb.PBLink
+			for _, n := range names {
+				sz := int64(sizes[n])
+				if n == bad {
+					sz = -1 - int64(rr.Intn(5))
+				}
+				e, err := builder.BuildUnixFSDirectoryEntry(n, sz, cidlink.Link{Cid: model[n]})
+				if err != nil {
+					return // refusing the entry up front is fine as well
+				}
+				entries = append(entries, e)
+			}
+			installOrderHook(c, st, "build with an unencodable entry")
+			kind := []string{"plain", "sharded8", "sharded256"}[i%3]
+			var l ipld.Link
+			var err error
+			if !c.Guard("build with an unencodable entry", func() {
+				switch kind {
+				case "plain":
+					l, _, err = builder.BuildUnixFSDirectory(entries, st.LinkSystem(false))
+				case "sharded8":
+					l, _, err = builder.BuildUnixFSShardedDirectory(8, multihash.MURMUR3X64_64, entries, st.LinkSystem(false))
+				default:
+					l, _, err = builder.BuildUnixFSShardedDirectory(256, multihash.MURMUR3X64_64, entries, st.LinkSystem(false))
+				}
+			}) {
+				return
+			}
+			c.Count("builds", 1)
+			c.Count("unencodable_entry_builds", 1)
+			if err == nil {
+				c.Violation("C16|write-failure-swallowed|encode", "%s directory of %d entries, one of which (%q) cannot be encoded: the build returned no error (link %v)", kind, len(names), bad, l)
+			} else if l != nil {
+				c.Violation("C16|link-with-error|encode", "%s directory with an unencodable entry: error %q together with link %v", kind, err, l)
+			}
+			if d := danglingIn(st); d != "" {
+				c.Violation("C16|dangling-after-failure|encode", "%s directory with an unencodable entry: %s", kind, d)
+			}
+			c.Sig("unencodable-entry|"+kind+"|"+sizeClass(len(names)), true)
 		})
 	}
 }
